@@ -88,6 +88,7 @@ pub const REGISTRY: &[Entry] = &[
 pub fn worker_main(args: &[String]) -> i32 {
     match args.first().map(|s| s.as_str()) {
         Some("open-hold") => c10::worker(&args[1..]),
+        Some("q") => exprlib::probe(&args[1..]),
         Some("c25") => c25::worker_main(&args[1..]),
         Some(kind) if kind.starts_with("c16") => c16::worker_main(kind, &args[1..]),
         _ => 2,
